@@ -6,8 +6,9 @@
    code under ASan/UBSan on ~30 000 files (see Log/README_depslog.md).  Proofs: Log/DepsLogProofs.v.
 
    Vocabulary (all from DepsLogDefs / DepsLogProofs):
-     load_deps f          what DepsLog::Load does on file content f  (= load_deps_ver false true;
-                          load_deps_ver old strict: old = before the torn-size-word fix)
+     load_deps f          what DepsLog::Load does on file content f  (= load_deps_ver false RdCur;
+                          load_deps_ver old m: old = before the torn-size-word fix,
+                          m = RdOld strict / RdCur: before / after the validation fix)
                           (DOk state truncate_to needs_recompaction | DBadHeader | DUnsafe class)
      apply_ops f ops      file content after one ninja session (load, open, RecordDeps..., close)
      session live f ops   the same with IsDepsEntryLiveFor = live (matters when Load asks for
@@ -21,12 +22,14 @@
    Results: roundtrip, sessions, recompaction, garbage tail hold in full generality (unbounded).
    C09_torn and C09_torn_next_session hold in full for the CURRENT loader (after the fix
    "truncate a torn record header when loading the deps log"): every cut, no exception.  For the
-   loader as it was before ([load_deps_old] = [load_deps_ver true true], sessions
+   loader as it was originally ([load_deps_old] = [load_deps_ver true (RdOld true)], sessions
    [apply_ops_old]) both are REFUTED for cuts leaving 1-3 bytes of a record's size word (not
    truncated; the next session's records were lost) and proved for all other cuts: these
-   witnesses document why the code changed.  C13 is REFUTED for the deps log: six classes of
-   files make Load exhibit undefined behaviour, a seventh crashes Recompact; proved safe
-   outside these classes (unchanged by the fix). *)
+   witnesses document why the code changed.  C13 for the deps log holds UNCONDITIONALLY for the
+   CURRENT reader (after the fix "validate record sizes and ids when loading the deps log":
+   C13_depslog_bounds, C13_recompact_bounds); for the reader before that fix
+   ([load_deps_rd_old], mode [RdOld]) it is REFUTED: six classes of files made Load exhibit
+   undefined behaviour, a seventh crashed Recompact; it was safe outside these classes. *)
 From NinjaV Require Import Base.Bytes Log.DepsLogDefs Log.DepsLogProofs.
 Local Open Scope N_scope.
 
@@ -86,14 +89,14 @@ Proof. split; [split; vm_compute; reflexivity|reflexivity]. Qed.
 
 (* One session on a writer-produced file, recompaction included: what the next load sees is the
    old view (restricted to the live outputs when the load asked for recompaction) updated by the
-   session's records.  [old] selects the loader before/after the torn-size-word fix (no
-   difference on clean files), [strict] whether misaligned loads count as undefined. *)
-Theorem C09_session_step : forall old strict live (U : list bytes) f s ops,
-  nlen U < kMaxIds -> oclean strict f s -> ok_state s -> incl (d_paths s) U ->
+   session's records.  [old] selects the loader before/after the torn-size-word fix, [m] the
+   record validation before/after the validation fix (no difference on clean files). *)
+Theorem C09_session_step : forall old (m : rmode) live (U : list bytes) f s ops,
+  nlen U < kMaxIds -> oclean m f s -> ok_state s -> incl (d_paths s) U ->
   Forall (fun op => incl (op_paths op) U) ops -> forallb wf_op ops = true ->
   exists s' nr,
-    load_deps_ver old strict f = DOk s None nr /\
-    oclean strict (session_ver old strict live f ops) s' /\ ok_state s' /\ incl (d_paths s') U /\
+    load_deps_ver old m f = DOk s None nr /\
+    oclean m (session_ver old m live f ops) s' /\ ok_state s' /\ incl (d_paths s') U /\
     (forall o, view s' o =
                upd (fun o => if nr then (if live o then view s o else None) else view s o) ops o).
 Proof. exact session_spec. Qed.
@@ -143,8 +146,8 @@ Theorem C09_torn : forall ops : list dop,
   ((16 <= k)%nat ->
    exists off s1 nr,
      (16 <= off <= k)%nat /\
-     clean true (firstn off (apply_ops [] ops)) s1 /\
-     (forall j s', (off < j <= k)%nat -> ~ clean true (firstn j (apply_ops [] ops)) s') /\
+     clean RdCur (firstn off (apply_ops [] ops)) s1 /\
+     (forall j s', (off < j <= k)%nat -> ~ clean RdCur (firstn j (apply_ops [] ops)) s') /\
      load_deps (firstn k (apply_ops [] ops)) =
        DOk s1 (if (k =? off)%nat then None else Some off) nr).
 Proof. exact C09_torn_thm. Qed.
@@ -152,14 +155,14 @@ Print Assumptions C09_torn.
 
 (* The exact outcome for both loaders ([torn_outcome]: the recompaction flag is the one of the
    state at off when only a size word was torn, false when read_failed). *)
-Theorem C09_torn_outcome : forall ops : list dop,
+Theorem C09_torn_outcome : forall (m : rmode) (ops : list dop),
   wf_ops ops ->
   forall k, (16 <= k <= length (apply_ops [] ops))%nat ->
   exists off s1 nr1,
     (16 <= off <= k)%nat /\
-    clean true (firstn off (apply_ops [] ops)) s1 /\
-    (forall j s', (off < j <= k)%nat -> ~ clean true (firstn j (apply_ops [] ops)) s') /\
-    (forall old, load_deps_ver old true (firstn k (apply_ops [] ops))
+    clean m (firstn off (apply_ops [] ops)) s1 /\
+    (forall j s', (off < j <= k)%nat -> ~ clean m (firstn j (apply_ops [] ops)) s') /\
+    (forall old, load_deps_ver old m (firstn k (apply_ops [] ops))
                  = torn_outcome old s1 nr1 off k).
 Proof. exact torn_apply_ops. Qed.
 Print Assumptions C09_torn_outcome.
@@ -177,8 +180,8 @@ Theorem C09_torn_next_session : forall ops ops2 : list dop,
   ((16 <= k)%nat ->
    exists off s1,
      (16 <= off <= k)%nat /\
-     clean true (firstn off (apply_ops [] ops)) s1 /\
-     (forall j s', (off < j <= k)%nat -> ~ clean true (firstn j (apply_ops [] ops)) s') /\
+     clean RdCur (firstn off (apply_ops [] ops)) s1 /\
+     (forall j s', (off < j <= k)%nat -> ~ clean RdCur (firstn j (apply_ops [] ops)) s') /\
      exists s' nr,
        load_deps (apply_ops (firstn k (apply_ops [] ops)) ops2) = DOk s' None nr /\
        forall o, view s' o = upd (view s1) ops2 o).
@@ -211,8 +214,8 @@ Theorem C09_torn_old_partial : forall ops : list dop,
   ((16 <= k)%nat ->
    exists off s1 nr1,
      (16 <= off <= k)%nat /\
-     clean true (firstn off (apply_ops [] ops)) s1 /\
-     (forall j s', (off < j <= k)%nat -> ~ clean true (firstn j (apply_ops [] ops)) s') /\
+     clean (RdOld true) (firstn off (apply_ops [] ops)) s1 /\
+     (forall j s', (off < j <= k)%nat -> ~ clean (RdOld true) (firstn j (apply_ops [] ops)) s') /\
      load_deps_old (firstn k (apply_ops [] ops)) =
        (if (k - off <? 4)%nat then DOk s1 None nr1 else DOk s1 (Some off) false)).
 Proof. exact C09_torn_old_partial_thm. Qed.
@@ -224,7 +227,7 @@ Theorem C09_torn_old_refuted :
      forall k, (16 <= k <= length (apply_ops [] ops))%nat ->
      exists off s1 nr1,
        (16 <= off <= k)%nat /\
-       clean true (firstn off (apply_ops [] ops)) s1 /\
+       clean (RdOld true) (firstn off (apply_ops [] ops)) s1 /\
        load_deps_old (firstn k (apply_ops [] ops)) =
          DOk s1 (if (k =? off)%nat then None else Some off) nr1).
 Proof. exact C09_torn_old_refuted_thm. Qed.
@@ -267,8 +270,8 @@ Theorem C09_torn_next_session_old_partial : forall ops ops2 : list dop,
   forall k, (16 <= k <= length (apply_ops [] ops))%nat ->
   exists off s1,
     (16 <= off <= k)%nat /\
-    clean true (firstn off (apply_ops [] ops)) s1 /\
-    (forall j s', (off < j <= k)%nat -> ~ clean true (firstn j (apply_ops [] ops)) s') /\
+    clean (RdOld true) (firstn off (apply_ops [] ops)) s1 /\
+    (forall j s', (off < j <= k)%nat -> ~ clean (RdOld true) (firstn j (apply_ops [] ops)) s') /\
     (k = off \/ (off + 4 <= k)%nat ->
      exists s' nr,
        load_deps_old (apply_ops_old (firstn k (apply_ops [] ops)) ops2) = DOk s' None nr /\
@@ -279,68 +282,111 @@ Print Assumptions C09_torn_next_session_old_partial.
 (* ------------------------------------------------------------------------------------ *)
 (* Arbitrary bytes after a valid log                                                    *)
 
-(* Unless the garbage drives the C++ into undefined behaviour (C13 below): every record of the
+(* Unless the garbage drives the C++ into undefined behaviour (old reader only, C13 below;
+   for the current reader the DUnsafe branch is excluded by C13_depslog_bounds): every record of the
    valid prefix is kept (the tables only grow), and either the file is cut exactly in front of
    the first malformed record (or torn size word), leaving a clean file whose state is the one
    returned, or the end of the file is reached and the whole file is clean (old loader: up to 3
    stray bytes may remain). *)
-Theorem C09_garbage_tail : forall old strict (f : bytes) (s : dstate) (g : bytes),
-  clean strict f s ->
-  match load_deps_ver old strict (f ++ g) with
+Theorem C09_garbage_tail : forall old (m : rmode) (f : bytes) (s : dstate) (g : bytes),
+  clean m f s ->
+  match load_deps_ver old m (f ++ g) with
   | DUnsafe _ => True
   | DOk s' tr nr =>
       extends s s' /\
       match tr with
       | Some off =>
-          (length f <= off <= length (f ++ g))%nat /\ clean strict (firstn off (f ++ g)) s'
+          (length f <= off <= length (f ++ g))%nat /\ clean m (firstn off (f ++ g)) s'
       | None =>
           exists f' stray, f ++ g = f' ++ stray /\
                            (if old then (length stray < 4)%nat else stray = []) /\
-                           (length f <= length f')%nat /\ clean strict f' s'
+                           (length f <= length f')%nat /\ clean m f' s'
       end
   | DBadHeader | DFuel => False
   end.
 Proof. exact C09_garbage_tail_thm. Qed.
 Print Assumptions C09_garbage_tail.
 
-Example C09_garbage_tail_nonvacuous : exists s, clean true torn_file s.
+Example C09_garbage_tail_nonvacuous : exists s, clean RdCur torn_file s.
 Proof.
-  destruct (apply_ops_clean torn_ops wf_torn_ops) as (s & [Hcl _] & _). exists s. exact Hcl.
+  destruct (apply_ops_clean RdCur torn_ops wf_torn_ops) as (s & [Hcl _] & _). exists s. exact Hcl.
 Qed.
 
 (* ------------------------------------------------------------------------------------ *)
-(* C13 for the deps log (unchanged by the fix)                                          *)
+(* C13 for the deps log                                                                 *)
 
-(* Load terminates on every byte string (the fuel of the model is never exhausted). *)
-Theorem C13_depslog_total : forall old strict (f : bytes), load_deps_ver old strict f <> DFuel.
+(* Load terminates on every byte string (the fuel of the model is never exhausted), every
+   version. *)
+Theorem C13_depslog_total : forall old (m : rmode) (f : bytes), load_deps_ver old m f <> DFuel.
 Proof. exact load_deps_never_fuel. Qed.
 Print Assumptions C13_depslog_total.
 
-(* "Load never misbehaves" is FALSE: one minimal file per class (header + one record). *)
+(* CURRENT reader (after "validate record sizes and ids when loading the deps log"): no file
+   content makes Load index out of bounds, allocate a negative size, read before the buffer
+   or load a misaligned word.  Unconditional.  (The model keeps the unsafe accesses where the
+   code performs them - decode_cur - and this theorem shows the new checks make them
+   unreachable.) *)
+Theorem C13_depslog_bounds : forall (f : bytes) (w : nat), load_deps f <> DUnsafe w.
+Proof. exact (C13_depslog_bounds_thm false). Qed.
+Print Assumptions C13_depslog_bounds.
+
+Theorem C13_depslog_bounds_gen : forall old strict (f : bytes) (w : nat),
+  load_deps_ver old RdCur f <> DUnsafe w /\ load_deps_gen strict f <> DUnsafe w.
+Proof. intros old strict f w. split; apply C13_depslog_bounds_thm. Qed.
+Print Assumptions C13_depslog_bounds_gen.
+
+(* ... and Recompact never indexes nodes_ out of bounds on a state produced by Load: every out
+   id and dep id of the state is an index of d_paths. *)
+Theorem C13_recompact_bounds : forall (f : bytes) s tr nr (live : bytes -> bool) (w : nat),
+  load_deps f = DOk s tr nr -> recompact_r live s <> CUnsafe w.
+Proof. exact (C13_recompact_bounds_thm false). Qed.
+Print Assumptions C13_recompact_bounds.
+
+Theorem C13_depslog_ids_in_range : forall (f : bytes) s tr nr,
+  load_deps f = DOk s tr nr ->
+  Forall (fun e => fst e < nlen (d_paths s) /\
+                   Forall (fun i => i < nlen (d_paths s)) (snd (snd e))) (d_deps s).
+Proof. exact (load_deps_ids_in_range false). Qed.
+Print Assumptions C13_depslog_ids_in_range.
+
+(* the seven files below on the current code: malformed record, truncation in front of it *)
+Example C13_depslog_bounds_examples :
+  load_deps unsafe1 = DOk d_empty (Some 16%nat) false /\
+  load_deps unsafe6 = DOk d_empty (Some 16%nat) false /\
+  load_deps unsafe_recompact = DOk d_empty (Some 16%nat) false.
+Proof.
+  destruct unsafe_files_now as (H1 & _ & _ & _ & _ & H6 & H7).
+  split; [exact H1|]. split; [exact H6|exact H7].
+Qed.
+
+(* OLD reader ([load_deps_rd_old strict] = the code before the validation fix): "Load never
+   misbehaves" was FALSE: one minimal file per class (header + one record), and one accepted
+   by Load that crashed Recompact. *)
 Theorem C13_depslog_bounds_refuted :
-  load_deps unsafe1 = DUnsafe 1 /\ load_deps unsafe2 = DUnsafe 2 /\
-  load_deps unsafe3 = DUnsafe 3 /\ load_deps unsafe4 = DUnsafe 4 /\
-  load_deps unsafe5 = DUnsafe 5 /\ load_deps unsafe6 = DUnsafe 6 /\
-  load_deps_x86 unsafe5 = DUnsafe 5 /\
-  (exists s, load_deps unsafe_recompact = DOk s None false /\
+  load_deps_rd_old true unsafe1 = DUnsafe 1 /\ load_deps_rd_old true unsafe2 = DUnsafe 2 /\
+  load_deps_rd_old true unsafe3 = DUnsafe 3 /\ load_deps_rd_old true unsafe4 = DUnsafe 4 /\
+  load_deps_rd_old true unsafe5 = DUnsafe 5 /\ load_deps_rd_old true unsafe6 = DUnsafe 6 /\
+  load_deps_rd_old false unsafe5 = DUnsafe 5 /\
+  (exists s, load_deps_rd_old true unsafe_recompact = DOk s None false /\
              forall live, recompact_r live s = CUnsafe 1).
 Proof. exact C13_depslog_bounds_refuted_thm. Qed.
 Print Assumptions C13_depslog_bounds_refuted.
 
-Corollary C13_depslog_bounds_full_refuted : ~ (forall f w, load_deps f <> DUnsafe w).
+Corollary C13_depslog_bounds_old_full_refuted :
+  ~ (forall f w, load_deps_rd_old true f <> DUnsafe w).
 Proof.
   intros H. destruct C13_depslog_bounds_refuted_thm as (H1 & _). exact (H _ _ H1).
 Qed.
-Print Assumptions C13_depslog_bounds_full_refuted.
+Print Assumptions C13_depslog_bounds_old_full_refuted.
 
-(* Outside these classes (safe_file: a syntactic condition on the framed records) Load has no
-   undefined behaviour; strict = true counts the misaligned checksum load, strict = false does not. *)
-Theorem C13_depslog_bounds_partial : forall old strict (f : bytes),
-  safe_file strict f = true -> forall w, load_deps_ver old strict f <> DUnsafe w.
-Proof. exact C13_depslog_bounds_partial_thm. Qed.
-Print Assumptions C13_depslog_bounds_partial.
+(* OLD reader: outside these classes (safe_file: a syntactic condition on the framed records)
+   it had no undefined behaviour; strict = true counts the misaligned checksum load. *)
+Theorem C13_depslog_bounds_old_partial : forall old strict (f : bytes),
+  safe_file strict f = true -> forall w, load_deps_ver old (RdOld strict) f <> DUnsafe w.
+Proof. exact C13_depslog_bounds_old_partial_thm. Qed.
+Print Assumptions C13_depslog_bounds_old_partial.
 
-Example C13_depslog_bounds_partial_nonvacuous :
+Example C13_depslog_bounds_old_partial_nonvacuous :
   safe_file true (apply_ops [] ex_ops) = true /\ safe_file false (apply_ops [] ex_ops) = true /\
   safe_file true unsafe6 = false /\ safe_file false unsafe6 = true.
 Proof.
